@@ -138,6 +138,35 @@ where
                 Err(_) => { let _ = writeln!(st.out, "R E"); }
             }
         }
+        5 => {
+            // reserve through the claimed handle (also of 0 bytes): refused
+            let n = match st.rng.below(3) { 0 => 0, 1 => st.rng.below(64) as usize, _ => st.rng.below(100000) as usize };
+            let _ = writeln!(st.out, "O RV {hl} {n}");
+            let r = low.try_reserve(n);
+            st.epoch += 1;
+            events_lines(st);
+            match r {
+                Ok(()) => { let _ = writeln!(st.out, "R U"); st.x("claimed-handle-allocated", &format!("try_reserve({n}) succeeded on a claimed handle")); }
+                Err(_) => { let _ = writeln!(st.out, "R E"); }
+            }
+        }
+        6 => {
+            // the panicking twins on the claimed handle: an unwinding panic, nothing changes (no model step:
+            // the statistics line of the next modelled step would show a difference)
+            let which = st.rng.below(6);
+            let r = catch_unwind(AssertUnwindSafe(|| match which {
+                0 => { let b = low.alloc(7u32); core::mem::forget(b); }
+                1 => { let b = low.alloc_slice_copy(&[1u16, 2, 3]); core::mem::forget(b); }
+                2 => { low.reserve(1 + st.rng.below(40) as usize); }
+                3 => { let b = low.alloc_str("claimed"); core::mem::forget(b); }
+                4 => { let v: bump_scope::BumpVec<u32, _> = bump_scope::BumpVec::with_capacity_in(3, low); core::mem::forget(v); }
+                _ => { let b = low.alloc_with(|| 9u64); core::mem::forget(b); }
+            }));
+            if r.is_ok() { st.x("claimed-handle-allocated", &format!("panicking entry point {which} returned normally on a claimed handle")); }
+            // values of zero-sized types never touch the allocator and are exempt
+            let z = catch_unwind(AssertUnwindSafe(|| { let b = low.alloc(()); core::mem::forget(b); let s = low.alloc_slice_copy::<()>(&[(), ()]); core::mem::forget(s); }));
+            if z.is_err() { st.x("panic", "allocating a zero-sized value through a claimed handle panicked"); }
+        }
         _ => {}
     }
 }
@@ -175,7 +204,7 @@ where
                 }
             }
             55..=60 if xs.prepared.is_none() && xs.depth_total < 6 => claim_x(st, xs, scope),
-            61..=66 if xs.prepared.is_none() => { st.ops_left = st.ops_left.saturating_sub(1); let kk = st.rng.below(5); lower_op::<A, S>(st, xs, kk) }
+            61..=66 if xs.prepared.is_none() => { st.ops_left = st.ops_left.saturating_sub(1); let kk = st.rng.below(7); lower_op::<A, S>(st, xs, kk) }
             67..=72 if xs.prepared.is_none() && xs.depth_total < 6 => { st.ops_left = st.ops_left.saturating_sub(1); aligned_x(st, xs, scope) }
             73..=88 => { st.ops_left = st.ops_left.saturating_sub(1); prepared_x(st, xs, scope) }
             89..=99 if xs.prepared.is_none() => { st.ops_left = st.ops_left.saturating_sub(3); mutvec_x(st, xs, scope) }
